@@ -59,6 +59,11 @@ def cases(tier):
                                                 continue
                                             yield {'k': 'amuset', 'd': d, 'd2': d2, 'm': m, 'ws': [list(w) for w in ws], 'b': bg, 'rw': rw,
                                                    'rel': rel, 'mr': mr, 'nev': nev, 'ro': ro}
+                            # thresholds that really cut the spectrum of Psi(X) (absolute and relative), only the last unfolding
+                            for rel in (False, True):
+                                for lvl in ((0.3, 0.1, 0.03, 0.01) if rel else (1.0, 0.3, 0.1, 0.03)):
+                                    yield {'k': 'amuset', 'd': d, 'd2': d2, 'm': m, 'ws': [list(w) for w in ws], 'b': bg, 'rw': rw,
+                                           'rel': rel, 'mr': 'inf', 'nev': 'inf', 'ro': 'eigenfunctionevals', 'thr': lvl}
 
 
 def prod_f(basis, s, x):
@@ -125,12 +130,29 @@ def run_case(case, seed):
     ww = np.ones(m) if w is None else w
     Pw = Psi * np.sqrt(ww)[None, :]
     U, S, Vt = np.linalg.svd(Pw, full_matrices=False)
-    thr = 1e-10
+    thr = case.get('thr', 1e-10)
     rel = S / S[0]
-    if np.any((rel > 1e-13) & (rel < 1e-7)) or np.any((S > 1e-13) & (S < 1e-7)):
-        r.skipped += 1
-        r.outcome = 'skipped-no-spectral-gap'
-        return r
+    if 'thr' not in case:
+        if np.any((rel > 1e-13) & (rel < 1e-7)) or np.any((S > 1e-13) & (S < 1e-7)):
+            r.skipped += 1
+            r.outcome = 'skipped-no-spectral-gap'
+            return r
+    else:
+        # a truncating cut is only a function of the input if (i) no intermediate unfolding of Psi_w has a singular value
+        # below 3*cut (apart from exact zeros) and (ii) the last unfolding has a gap around the cut
+        Tw = Pw.reshape(n + [m])
+        ok = True
+        for kk in range(1, len(n)):
+            sv = np.linalg.svd(Tw.reshape(int(np.prod(n[:kk])), -1), compute_uv=False)
+            v_ = sv / sv[0] if case['rel'] else sv
+            ok &= not np.any((v_ > 1e-12) & (v_ < 3 * thr))
+        v_ = rel if case['rel'] else S
+        ok &= not np.any((v_ > thr / 1.5) & (v_ < thr * 1.5)) and np.any(v_ < thr) and np.any(v_ > thr)
+        if not ok:
+            r.skipped += 1
+            r.outcome = 'skipped-cut-not-isolated'
+            return r
+        r.outcome = 'truncating-cut'
     k = int(np.sum(S > thr)) if not case['rel'] else int(np.sum(rel > thr))
     U, S, Vt = U[:, :k], S[:k], Vt[:k]
     if case['b']:
